@@ -95,6 +95,8 @@ class Ctx:
                 raise CheckerError(str(e))
             self.extract_info = info
             self._prog = Program(d)
+            import pathsens
+            pathsens.register_adts(self._prog.adts)
         return self._prog
 
     @property
